@@ -2,8 +2,11 @@ package clientprop
 
 import (
 	"context"
+	"crypto/tls"
 	"fmt"
 	"net"
+	"os"
+	"runtime"
 	"strconv"
 	"strings"
 	"sync"
@@ -13,9 +16,12 @@ import (
 	"github.com/openconfig/gnmi/client"
 	gclient "github.com/openconfig/gnmi/client/gnmi"
 	gpb "github.com/openconfig/gnmi/proto/gnmi"
+	"github.com/openconfig/grpctunnel/tunnel"
 	"google.golang.org/grpc"
 	"google.golang.org/grpc/codes"
+	"google.golang.org/grpc/credentials"
 	"google.golang.org/grpc/status"
+	"google.golang.org/protobuf/proto"
 )
 
 // Part "real": the lifecycle of half A (a generated SEQUENCE of Subscribe /
@@ -50,6 +56,27 @@ import (
 // Waiting "until the first sync / N disconnect callbacks / the trap fired"
 // only decides where the next step lands; such a wait gives up after a while
 // and the step is issued anyway.
+//
+// Further dimensions (realquery.go, callbacks.go):
+//
+//   - the SHAPE of every query: each optional field of client.Query set or not
+//     (Extra, Credentials, TLS with a TLS server, Replica, UpdatesOnly,
+//     AddressChains, Encoding, Target, SubReq besides / instead of Queries,
+//     ProtoHandler instead of NotificationHandler, Timeout unset, a tunnel
+//     connection handed in as Query.TunnelConn), the types Poll and Once;
+//   - the constructor arguments of client.Reconnect: both callbacks, none, only
+//     disconnect, only reset; the discipline is judged for those given;
+//   - HOW a subscription ends: through its CONTEXT - a cancel function, a value
+//     or parent context, a deadline of real time - and not only through Close,
+//     while the server holds the stream open and quiet or is MID-BURST
+//     (RConn.Burst, RStep.Burst);
+//   - the clause "Subscribe returns once its context has ended (or its
+//     reconnecting client was closed)" is decided structurally, not by a clock:
+//     a stopped call that has not returned while the whole process is quiescent
+//     is a violation (realquiet.go explains the verdict and why it is sound);
+//     the 30 s guard remains for everything that is not quiescent. Calls whose
+//     context has ended are awaited BEFORE the closing Close (RScenario.
+//     NoEndWait keeps the older race between the two in one case in four).
 
 // RConn scripts how the server treats one Subscribe RPC (in arrival order;
 // RPCs beyond the script get 1 update, a sync, and stay open).
@@ -61,6 +88,13 @@ type RConn struct {
 	N    int    `json:"n,omitempty"`    // data: updates sent
 	Sync bool   `json:"sync,omitempty"` // data: a sync_response after them
 	End  string `json:"end,omitempty"`  // data: "block" | "err" | "eof"
+	// Burst (data, End "block"): the stream is not merely quiet. Once the harness
+	// opens the burst gate of the case (right before a cancel / close step that
+	// asks for it) the handler sends Burst further updates back to back - the
+	// stop action lands while the server is MID-BURST - and only then holds the
+	// stream open and quiet. A bounded burst keeps the hang verdict structural:
+	// a client that ignores the end of its context drains it and then blocks.
+	Burst int `json:"burst,omitempty"`
 }
 
 // RStep is one step of the sequence.
@@ -92,15 +126,42 @@ type RStep struct {
 	TrapAttempt int    `json:"trap_attempt,omitempty"`
 	TrapAct     string `json:"trap_act,omitempty"`
 	TrapLinger  bool   `json:"trap_linger,omitempty"`
+	// subscribe: the SHAPE of the query (realquery.go): Type "" (Stream), "poll"
+	// or "once" (plain clients only: the reconnecting client documents that it
+	// refuses Once); Opts names the optional fields of client.Query that are set.
+	Type string   `json:"type,omitempty"`
+	Opts []string `json:"opts,omitempty"`
+	// subscribe: the shape of the caller's context (ctxKinds of scenario.go). For
+	// the shapes that end by a deadline the deadline passes Deadline ms of real
+	// time after the call (where that lands - in the dial, the set-up, the
+	// stream, a backoff - is up to the machine and is only labelled); the call
+	// then has its stop action from the start and a later cancel step merely
+	// waits for the deadline.
+	Ctx      string `json:"ctx,omitempty"`
+	Deadline int    `json:"deadline,omitempty"`
+	// cancel / close: open the burst gate of the case first and wait until the
+	// first update of the burst has been delivered (see RConn.Burst).
+	Burst bool `json:"burst,omitempty"`
 }
 
 // RScenario is one case of part "real".
 type RScenario struct {
-	Client       string  `json:"client"` // "base" | "cache"
-	Plain        bool    `json:"plain,omitempty"`
-	NilCallbacks bool    `json:"nil_callbacks,omitempty"`
-	Conns        []RConn `json:"conns,omitempty"`
-	Steps        []RStep `json:"steps"`
+	Client       string `json:"client"` // "base" | "cache"
+	Plain        bool   `json:"plain,omitempty"`
+	NilCallbacks bool   `json:"nil_callbacks,omitempty"`
+	Callbacks    string `json:"callbacks,omitempty"` // see Scenario.Callbacks
+	// TLS: the server speaks TLS (a certificate made for the process) and every
+	// query carries Query.TLS.
+	TLS   bool    `json:"tls,omitempty"`
+	Conns []RConn `json:"conns,omitempty"`
+	Steps []RStep `json:"steps"`
+	// NoEndWait: the closing Close is issued at once, racing with Subscribe
+	// calls whose context has ended and which are still unwinding (the shape of
+	// the part before the clause "Subscribe returns once its context has ended"
+	// was judged). Otherwise every such call is awaited - with the structural
+	// hang verdict of realquiet.go - BEFORE the closing Close, which would end
+	// the stream by closing the connection and hide a context that is ignored.
+	NoEndWait bool `json:"no_end_wait,omitempty"`
 }
 
 // realBadPaths: query paths the gNMI request builder rejects - after the RPC
@@ -136,6 +197,12 @@ func (sc *RScenario) validate() error {
 		if c.N < 0 || c.N > 32 {
 			return fmt.Errorf("connection %d: %d updates", i, c.N)
 		}
+		if c.Burst < 0 || c.Burst > 256 || (c.Burst > 0 && (c.Mode != "data" || c.End != "block")) {
+			return fmt.Errorf("connection %d: burst %d", i, c.Burst)
+		}
+	}
+	if err := validCallbacks(sc.Plain, sc.NilCallbacks, sc.Callbacks); err != nil {
+		return err
 	}
 	for i, s := range sc.Steps {
 		switch s.Kind {
@@ -152,10 +219,16 @@ func (sc *RScenario) validate() error {
 			return fmt.Errorf("step %d n %d", i, s.N)
 		}
 		if s.Kind != "subscribe" {
-			if s.Query != "" || s.Cancelled || s.Trap != "" || s.TrapAct != "" || s.TrapLinger {
+			if s.Query != "" || s.Cancelled || s.Trap != "" || s.TrapAct != "" || s.TrapLinger || s.Type != "" || len(s.Opts) > 0 || s.Ctx != "" || s.Deadline != 0 {
 				return fmt.Errorf("step %d: only a subscribe step carries a query, a context or a trap", i)
 			}
 			continue
+		}
+		if s.Burst {
+			return fmt.Errorf("step %d: only a cancel or close step opens the burst gate", i)
+		}
+		if err := validRealShape(s, sc.Plain); err != nil {
+			return fmt.Errorf("step %d: %v", i, err)
 		}
 		if _, bad := realBadPaths[s.Query]; !bad && s.Query != "" && s.Query != "dead" {
 			return fmt.Errorf("step %d query %q", i, s.Query)
@@ -190,6 +263,9 @@ type realServer struct {
 
 var defaultRConn = RConn{Mode: "data", N: 1, Sync: true, End: "block"}
 
+// realBurstCap bounds stage 1 of a burst (see realServer.Subscribe).
+const realBurstCap = 3000
+
 func (s *realServer) Subscribe(stream gpb.GNMI_SubscribeServer) error {
 	s.mu.Lock()
 	idx := s.rpcs
@@ -212,12 +288,15 @@ func (s *realServer) Subscribe(stream gpb.GNMI_SubscribeServer) error {
 	if c.Mode == "recv-err" {
 		return status.Error(codes.Unavailable, "scripted failure after the request")
 	}
-	for k := 0; k < c.N; k++ {
+	update := func(k int) *gpb.SubscribeResponse {
 		n := &gpb.Notification{Timestamp: int64(1000*idx + k + 1), Prefix: &gpb.Path{Target: "dev"}, Update: []*gpb.Update{{
 			Path: &gpb.Path{Elem: []*gpb.PathElem{{Name: "c" + strconv.Itoa(idx)}, {Name: "k" + strconv.Itoa(k)}}},
 			Val:  &gpb.TypedValue{Value: &gpb.TypedValue_IntVal{IntVal: int64(1000*idx + k)}},
 		}}}
-		if err := stream.Send(&gpb.SubscribeResponse{Response: &gpb.SubscribeResponse_Update{Update: n}}); err != nil {
+		return &gpb.SubscribeResponse{Response: &gpb.SubscribeResponse_Update{Update: n}}
+	}
+	for k := 0; k < c.N; k++ {
+		if err := stream.Send(update(k)); err != nil {
 			return err
 		}
 	}
@@ -232,9 +311,62 @@ func (s *realServer) Subscribe(stream gpb.GNMI_SubscribeServer) error {
 	case "eof":
 		return nil
 	}
+	owed := c.N
+	if c.Sync {
+		owed++
+	}
+	s.w.mu.Lock()
+	s.w.owed = owed // (everything sent on the stream that is now held open)
+	s.w.mu.Unlock()
 	s.w.park(1)
 	defer s.w.park(-1)
+	if c.Burst > 0 {
+		s.w.mu.Lock()
+		s.w.gateWaiters++
+		s.w.mu.Unlock()
+		s.w.wake()
+		select {
+		case <-stream.Context().Done():
+			s.w.mu.Lock()
+			s.w.gateWaiters--
+			s.w.mu.Unlock()
+			return stream.Context().Err()
+		case <-s.w.burstGate:
+		}
+		s.w.mu.Lock()
+		s.w.bursts++
+		s.w.mu.Unlock()
+		// stage 1: back to back until the harness has issued its stop action
+		// (burstStop; at most realBurstCap messages), stage 2: Burst more.
+		k := c.N
+	stage1:
+		for ; k < c.N+realBurstCap; k++ {
+			select {
+			case <-s.w.burstStop:
+				break stage1
+			default:
+			}
+			if err := stream.Send(update(k)); err != nil {
+				return err
+			}
+		}
+		for j := 0; j < c.Burst; j++ {
+			if err := stream.Send(update(k)); err != nil {
+				return err
+			}
+			k++
+		}
+		s.w.mu.Lock()
+		s.w.burstsDone++
+		s.w.mu.Unlock()
+		s.w.wake()
+	}
+	// quiet from here on: only the end of the stream's context wakes the handler
 	<-stream.Context().Done()
+	s.w.mu.Lock()
+	s.w.streamEnds++
+	s.w.mu.Unlock()
+	s.w.wake()
 	return stream.Context().Err()
 }
 
@@ -262,6 +394,13 @@ type rcall struct {
 	returned  bool
 	fired     bool // its trap
 	closedAt  int  // Close calls issued when it was called
+	ctx       context.Context
+	release   func()
+	// selfEnding: the context ends by a deadline (the stop action was issued
+	// with the call); ctxEnded: the harness ended it (cancel step, trap,
+	// Cancelled) or saw its deadline pass.
+	selfEnding bool
+	ctxEnded   bool
 }
 
 type rworld struct {
@@ -276,10 +415,24 @@ type rworld struct {
 	nEnd    int
 	attempt context.Context // context of the running underlying attempt
 	parked  int             // server handlers holding a stream open
+	owed    int             // messages the latest of them had sent before
 	nClose  int             // Close calls issued
 	paniced string
 	poke    chan struct{}
 	closes  sync.WaitGroup
+
+	ports       []int         // TCP ports of the case (realquiet.go)
+	burstGate   chan struct{} // closed by the first step that asks for the burst
+	burstStop   chan struct{} // closed once that step has issued its stop action
+	burstOpen   bool
+	gateWaiters int // handlers waiting at the gate
+	bursts      int // bursts begun / completed by server handlers
+	burstsDone  int
+	streamEnds  int        // parked handlers that saw their stream's context end
+	tunnels     []net.Conn // connections dialled by the harness (opt "tunnel-conn")
+	noLooks     string     // why the structural hang verdict is unavailable
+	looks       int        // looks taken by awaitStopped / found quiescent
+	quietLooks  int
 }
 
 func (w *rworld) rec(e rev) {
@@ -337,7 +490,11 @@ func (t *rtrace) Subscribe(ctx context.Context, q client.Query, clientType ...st
 	idx := w.nBegin
 	w.nBegin++
 	w.attempt = ctx
-	w.trace = append(w.trace, rev{kind: "sub-begin", n: idx})
+	note := ""
+	if q.ProtoHandler != nil {
+		note = "proto"
+	}
+	w.trace = append(w.trace, rev{kind: "sub-begin", n: idx, note: note})
 	w.mu.Unlock()
 	w.wake()
 	err := t.Client.Subscribe(ctx, q, clientType...)
@@ -358,11 +515,44 @@ func (w *rworld) handler(n client.Notification) error {
 		e = rev{kind: "sync"}
 	case client.Update:
 		// target "dev", c<conn>, k<index>, value 1000*conn+index
-		if len(v.Path) == 3 && v.Path[0] == "dev" && strings.HasPrefix(v.Path[1], "c") && strings.HasPrefix(v.Path[2], "k") {
-			c, e1 := strconv.Atoi(v.Path[1][1:])
-			k, e2 := strconv.Atoi(v.Path[2][1:])
-			if val, ok := v.Val.(int64); ok && e1 == nil && e2 == nil && val == int64(1000*c+k) {
-				e = rev{kind: "upd", n: c, k: k}
+		if len(v.Path) == 3 && v.Path[0] == "dev" {
+			if val, ok := v.Val.(int64); ok {
+				if t, ok := parseRealTag(v.Path[1], v.Path[2], val); ok {
+					e = t
+				}
+			}
+		}
+	}
+	w.rec(e)
+	return nil
+}
+
+func parseRealTag(c, k string, val int64) (rev, bool) {
+	if !strings.HasPrefix(c, "c") || !strings.HasPrefix(k, "k") {
+		return rev{}, false
+	}
+	ci, e1 := strconv.Atoi(c[1:])
+	ki, e2 := strconv.Atoi(k[1:])
+	if e1 != nil || e2 != nil || val != int64(1000*ci+ki) {
+		return rev{}, false
+	}
+	return rev{kind: "upd", n: ci, k: ki}, true
+}
+
+// protoHandler is the ProtoHandler of a query with opt "proto": the raw
+// responses, in the order received (no Connected notification exists there).
+func (w *rworld) protoHandler(m proto.Message) error {
+	e := rev{kind: "other", note: fmt.Sprintf("%v", m)}
+	if r, ok := m.(*gpb.SubscribeResponse); ok {
+		switch v := r.Response.(type) {
+		case *gpb.SubscribeResponse_SyncResponse:
+			e = rev{kind: "sync"}
+		case *gpb.SubscribeResponse_Update:
+			if n := v.Update; n != nil && len(n.Update) == 1 && n.Update[0].GetPath() != nil && len(n.Update[0].Path.Elem) == 2 {
+				u := n.Update[0]
+				if t, ok := parseRealTag(u.Path.Elem[0].Name, u.Path.Elem[1].Name, u.GetVal().GetIntVal()); ok && n.GetPrefix().GetTarget() == "dev" {
+					e = t
+				}
 			}
 		}
 	}
@@ -433,6 +623,7 @@ func (w *rworld) trap(point string) {
 		call.stopped = true
 	}
 	if act == "cancel" {
+		call.ctxEnded = true
 		w.trace = append(w.trace, rev{kind: "cancel", call: call.n})
 	}
 	w.mu.Unlock()
@@ -504,6 +695,169 @@ func (w *rworld) recoverPanic(what string) {
 // running one case
 // ---------------------------------------------------------------------------
 
+// awaitStopped waits for done (evaluated under w.mu) once a stop action has
+// been issued for what it stands for: the return of a Subscribe call whose
+// context has ended or whose reconnecting client was closed, the return of a
+// Close call. ended, if not nil, is a context whose end is that stop action and
+// may still be ahead (a deadline): it is waited for first. The verdicts:
+// ok (done holds), stuck (the structural hang verdict of realquiet.go: the
+// process is quiescent and done still does not hold; the text says where the
+// Subscribe calls of the case are parked), or neither = the guard expired.
+func (w *rworld) awaitStopped(done func() bool, ended context.Context) (ok bool, stuck string) {
+	cond := func() bool { return done() || w.paniced != "" }
+	guard := time.Now().Add(realGuard)
+	if ended != nil {
+		t := time.NewTimer(realGuard)
+		select {
+		case <-ended.Done():
+		case <-t.C:
+		}
+		t.Stop()
+	}
+	if w.await(realFast, cond) {
+		return true, ""
+	}
+	streak, lastLen := 0, -1
+	for time.Now().Before(guard) {
+		if w.await(realQuietEvery, cond) {
+			return true, ""
+		}
+		if w.noLooks != "" {
+			continue
+		}
+		quiet, known, why, where := realQuiet(w.ports)
+		if !known {
+			w.noLooks = why
+			continue
+		}
+		w.mu.Lock()
+		if cond() {
+			// (it returned while the look was taken)
+			w.mu.Unlock()
+			return true, ""
+		}
+		n := len(w.trace)
+		w.looks++
+		if quiet {
+			w.quietLooks++
+			if os.Getenv("C18_REAL_DEBUG") != "" {
+				buf := make([]byte, 1<<20)
+				buf = buf[:runtime.Stack(buf, true)]
+				fmt.Printf("QUIETLOOK streak=%d where=%v\n trace %s\n%s\n", streak, where, renderTrace(w.trace), buf)
+			}
+		}
+		w.mu.Unlock()
+		switch {
+		case !quiet:
+			streak = 0
+		case streak == 0 || n == lastLen:
+			streak++
+		default:
+			streak = 1
+		}
+		lastLen = n
+		if streak >= realQuietLooks {
+			w.mu.Lock()
+			now := cond()
+			ends, parked := w.streamEnds, w.parked
+			w.mu.Unlock()
+			if now {
+				return true, ""
+			}
+			return false, fmt.Sprintf("%d consecutive looks at the process found it quiescent (every goroutine parked on a channel / select / lock / the network poller, none in a dial, a backoff sleep or a trap; every socket of the case idle with empty queues); %d server handlers are holding a stream open and have not seen its context end (%d have); the Subscribe calls of the case are parked at: %s",
+				streak, parked, ends, strings.Join(where, " || "))
+		}
+	}
+	return false, ""
+}
+
+// runSubscribe is the body of the goroutine of one Subscribe call (its name
+// marks that goroutine in the dumps of realquiet.go).
+func (w *rworld) runSubscribe(call *rcall, ctx context.Context, q client.Query, typ string, subs *sync.WaitGroup) {
+	defer subs.Done()
+	defer w.recoverPanic("Subscribe")
+	err := w.c.Subscribe(ctx, q, typ)
+	w.mu.Lock()
+	call.returned = true
+	w.trace = append(w.trace, rev{kind: "ret", call: call.n, note: fmt.Sprint(err)})
+	w.mu.Unlock()
+	w.wake()
+}
+
+// mkRealQuery builds the query of one Subscribe step.
+func (w *rworld) mkRealQuery(s RStep, addr, dead string, st *tstats) client.Query {
+	q := client.Query{
+		Addrs:               []string{addr},
+		Target:              "dev",
+		Queries:             []client.Path{{"*"}},
+		Type:                client.Stream,
+		Timeout:             10 * time.Second,
+		NotificationHandler: w.handler,
+	}
+	switch s.Type {
+	case "poll":
+		q.Type = client.Poll
+		st.label("query-type:poll")
+	case "once":
+		q.Type = client.Once
+		st.label("query-type:once")
+	}
+	switch {
+	case s.Query == "dead":
+		q.Addrs, q.Timeout = []string{dead}, 30*time.Millisecond
+		st.label("dead-address")
+	case s.Query != "":
+		q.Queries = realBadPaths[s.Query]
+		st.label("bad-path:" + s.Query)
+	}
+	if w.sc.TLS {
+		q.TLS = &tls.Config{InsecureSkipVerify: true}
+	}
+	var plainOpts []string // (the tunnel connection of this part is made below)
+	for _, o := range s.Opts {
+		if o != "tunnel-conn" && o != "tunnel-no-addrs" {
+			plainOpts = append(plainOpts, o)
+		}
+	}
+	q = applyOpts(q, plainOpts, q.Addrs[0])
+	for _, o := range s.Opts {
+		switch o {
+		case "proto":
+			if w.sc.Client == "cache" {
+				continue // a CacheClient installs its own handler
+			}
+			q.NotificationHandler, q.ProtoHandler = nil, w.protoHandler
+		case "timeout-unset":
+			q.Timeout = 0
+		case "tunnel-conn", "tunnel-no-addrs":
+			// Query.TunnelConn is ONE established connection (the transport then
+			// dials nothing): the harness makes it, a plain TCP connection to the
+			// address of the query. (validate keeps it to plain clients: a retry
+			// would find the same connection used up.)
+			c, derr := net.DialTimeout("tcp", q.Addrs[0], 2*time.Second)
+			if derr != nil {
+				st.label("tunnel-connection-not-made")
+				continue
+			}
+			w.mu.Lock()
+			w.tunnels = append(w.tunnels, c)
+			w.mu.Unlock()
+			q.TunnelConn = &tunnel.Conn{ReadWriteCloser: c}
+			if o == "tunnel-no-addrs" {
+				q.Addrs = nil
+			}
+		}
+		st.label("query-opt:" + o)
+	}
+	if len(s.Opts) == 0 && s.Type == "" {
+		st.label("query-shape:minimal")
+	}
+	if len(s.Opts) >= 3 {
+		st.label("query-opts>=3")
+	}
+	return q
+}
+
 func runReal(sc *RScenario) (st *tstats, err error) {
 	st = &tstats{}
 	defer func() {
@@ -525,6 +879,8 @@ func runReal(sc *RScenario) (st *tstats, err error) {
 	if lerr != nil {
 		return st, &errInconclusive{"listen: " + lerr.Error()}
 	}
+	w := &rworld{sc: sc, poke: make(chan struct{}, 1), burstGate: make(chan struct{}), burstStop: make(chan struct{})}
+	w.ports = append(w.ports, lis.Addr().(*net.TCPAddr).Port)
 	dead := ""
 	for _, s := range sc.Steps {
 		if s.Query == "dead" && dead == "" {
@@ -534,15 +890,33 @@ func runReal(sc *RScenario) (st *tstats, err error) {
 				return st, &errInconclusive{"listen: " + e2.Error()}
 			}
 			dead = l2.Addr().String()
+			w.ports = append(w.ports, l2.Addr().(*net.TCPAddr).Port)
 			l2.Close()
 		}
 	}
-	w := &rworld{sc: sc, poke: make(chan struct{}, 1)}
-	srv := grpc.NewServer()
+	var sopts []grpc.ServerOption
+	if sc.TLS {
+		cfg, cerr := realServerTLS()
+		if cerr != nil {
+			lis.Close()
+			return st, &errInconclusive{"certificate: " + cerr.Error()}
+		}
+		sopts = append(sopts, grpc.Creds(credentials.NewTLS(cfg)))
+		st.label("tls")
+	}
+	srv := grpc.NewServer(sopts...)
 	ss := &realServer{w: w, used: map[string]bool{}}
 	gpb.RegisterGNMIServer(srv, ss)
 	go srv.Serve(lis)
 	defer srv.Stop()
+	defer func() {
+		w.mu.Lock()
+		tunnels := w.tunnels
+		w.mu.Unlock()
+		for _, t := range tunnels {
+			t.Close()
+		}
+	}()
 
 	var inner client.Client
 	if sc.Client == "cache" {
@@ -552,18 +926,16 @@ func runReal(sc *RScenario) (st *tstats, err error) {
 		inner = &client.BaseClient{}
 		st.label("baseclient")
 	}
-	switch {
-	case sc.Plain:
+	hasDisc, hasReset := callbacksGiven(sc.NilCallbacks, sc.Callbacks)
+	if sc.Plain {
 		w.c = &rtrace{Client: inner, w: w}
 		st.label("plain-client")
-	case sc.NilCallbacks:
-		w.c = client.Reconnect(&rtrace{Client: inner, w: w}, nil, nil)
-		st.label("reconnect-nil-callbacks")
-	default:
-		w.c = client.Reconnect(&rtrace{Client: inner, w: w},
+	} else {
+		var l string
+		w.c, l = mkReconnect(&rtrace{Client: inner, w: w}, sc.NilCallbacks, sc.Callbacks,
 			func() { w.rec(rev{kind: "disconnect"}) },
 			func() { w.rec(rev{kind: "reset"}) })
-		st.label("reconnect-client")
+		st.label(l)
 	}
 	curReal.Store(w)
 	defer curReal.Store(nil)
@@ -571,6 +943,22 @@ func runReal(sc *RScenario) (st *tstats, err error) {
 	var subs sync.WaitGroup
 	closedAny := false
 	inconclusive := ""
+	var hang *verr
+	// heldQuiet (under w.mu): the server holds the running attempt's stream open
+	// and everything it had sent before has reached the handler - nothing more
+	// will happen on that stream by itself.
+	heldQuiet := func() bool {
+		if w.parked == 0 {
+			return false
+		}
+		got := 0
+		for i := len(w.trace) - 1; i >= 0 && w.trace[i].kind != "sub-begin"; i-- {
+			if k := w.trace[i].kind; k == "upd" || k == "sync" {
+				got++
+			}
+		}
+		return got >= w.owed
+	}
 	// counters read under w.mu
 	since := func(call *rcall, kind string) int {
 		n, on := 0, false
@@ -585,16 +973,14 @@ func runReal(sc *RScenario) (st *tstats, err error) {
 		return n
 	}
 	// phase says, for the labels, what the latest Subscribe call is doing.
-	phase := func() string {
-		w.mu.Lock()
-		defer w.mu.Unlock()
+	phaseLocked := func() string {
 		c := w.cur
 		switch {
 		case c == nil:
 			return "before-any-subscribe"
 		case c.returned:
 			return "with-no-subscribe-running"
-		case c.stopped:
+		case c.stopped && !(c.selfEnding && !c.ctxEnded):
 			return "while-stopped-subscribe-unwinds"
 		case w.nBegin == w.nEnd:
 			if w.nBegin == c.beginBase {
@@ -609,9 +995,79 @@ func runReal(sc *RScenario) (st *tstats, err error) {
 			}
 		}
 		if got {
+			if w.bursts > w.burstsDone {
+				return "while-streaming-mid-burst"
+			}
+			if w.parked > 0 {
+				return "while-streaming-quiet-stream"
+			}
 			return "while-streaming"
 		}
 		return "during-set-up"
+	}
+	phase := func() string {
+		w.mu.Lock()
+		defer w.mu.Unlock()
+		return phaseLocked()
+	}
+	// settle awaits the return of a Subscribe call whose stop action was issued.
+	settle := func(c *rcall, what string) bool {
+		var ended context.Context
+		if c.selfEnding {
+			ended = c.ctx
+		}
+		ok, stuck := w.awaitStopped(func() bool { return c.returned }, ended)
+		switch {
+		case ok:
+			return true
+		case stuck != "":
+			w.mu.Lock()
+			why := "Close had been called on its reconnecting client"
+			if c.ctx.Err() != nil {
+				why = fmt.Sprintf("its context had ended (%v)", c.ctx.Err())
+			}
+			closes := w.nClose
+			w.mu.Unlock()
+			hang = newVerr("stop-ignored", "Subscribe #%d has not returned although %s (%s; %d Close calls issued so far) and nothing is left that could make it return: %s", c.n, why, what, closes, stuck)
+		default:
+			inconclusive = fmt.Sprintf("Subscribe #%d has not returned although its stop action was issued (%s)", c.n, what)
+		}
+		return false
+	}
+	// openBurst opens the burst gate and waits for the first update of a burst;
+	// the step then issues its stop action and calls the returned function,
+	// which tells the server that it has (the burst goes on for RConn.Burst
+	// messages more and ends).
+	openBurst := func() (issued func()) {
+		w.mu.Lock()
+		first := !w.burstOpen
+		w.burstOpen = true
+		waiting := w.gateWaiters
+		base := len(w.trace)
+		cur := w.cur
+		w.mu.Unlock()
+		if !first {
+			return func() {}
+		}
+		close(w.burstGate)
+		issued = func() { close(w.burstStop) }
+		if waiting == 0 {
+			st.label("burst-gate-opened-with-no-stream-waiting")
+			return issued
+		}
+		if w.await(realPatience/8, func() bool {
+			for _, e := range w.trace[base:] {
+				if e.kind == "upd" {
+					return true
+				}
+			}
+			return cur == nil || cur.returned
+		}) {
+			st.label("burst-begun-before-the-step")
+		} else {
+			st.label("wait-gave-up:burst")
+		}
+		return issued
 	}
 
 	for _, s := range sc.Steps {
@@ -628,13 +1084,15 @@ func runReal(sc *RScenario) (st *tstats, err error) {
 			w.mu.Unlock()
 			switch {
 			case due:
-				if !w.await(realGuard, func() bool { return cur.returned || w.paniced != "" }) {
-					inconclusive = fmt.Sprintf("Subscribe #%d has not returned although its stop action was issued", cur.n)
+				if settle(cur, "awaited by the step that follows") {
+					st.label("step-after-return")
+					if cur.ctxEnded || cur.selfEnding {
+						st.label("ctx-ended-call-awaited-without-close")
+					}
 				}
-				st.label("step-after-return")
 			case running && sc.Plain:
 				// a plain client's Subscribe may end by itself
-				if w.await(realPatience/4, func() bool { return cur.returned || w.parked > 0 }) {
+				if w.await(realPatience/4, func() bool { return cur.returned || heldQuiet() }) {
 					st.label("step-after-return")
 				} else {
 					st.label("wait-gave-up:ret")
@@ -643,24 +1101,28 @@ func runReal(sc *RScenario) (st *tstats, err error) {
 		case !running:
 		case s.After == "sync" && cur.step.Query == "" && !cur.step.Cancelled && (sc.Plain || !closedAny):
 			n := 1
-			if w.await(realPatience, func() bool { return since(cur, "sync") >= n || cur.returned || w.parked > 0 }) {
+			if w.await(realPatience, func() bool { return since(cur, "sync") >= n || cur.returned || heldQuiet() }) {
 				st.label("step-after-sync")
 			} else {
 				st.label("wait-gave-up:sync")
 			}
-		case s.After == "disc" && !sc.Plain && !sc.NilCallbacks:
+		case s.After == "disc" && !sc.Plain && (hasDisc || hasReset):
 			n := s.N
 			if n < 1 {
 				n = 1
 			}
-			if w.await(realPatience, func() bool { return since(cur, "disconnect") >= n || cur.returned || w.parked > 0 }) {
+			counted := "disconnect" // (the callback that was given)
+			if !hasDisc {
+				counted = "reset"
+			}
+			if w.await(realPatience, func() bool { return since(cur, counted) >= n || cur.returned || heldQuiet() }) {
 				st.label("step-after-disconnects")
 			} else {
 				st.label("wait-gave-up:disc")
 			}
 		case s.After == "trap" && cur.step.Trap != "":
 			if w.await(realPatience, func() bool {
-				return cur.fired || cur.returned || w.parked > 0 || w.nEnd-cur.beginBase > cur.step.TrapAttempt
+				return cur.fired || cur.returned || heldQuiet() || w.nEnd-cur.beginBase > cur.step.TrapAttempt
 			}) {
 				st.label("step-after-trap")
 			} else {
@@ -673,7 +1135,7 @@ func runReal(sc *RScenario) (st *tstats, err error) {
 				st.label("wait-gave-up:begin")
 			}
 		}
-		if inconclusive != "" {
+		if inconclusive != "" || hang != nil {
 			break
 		}
 		w.mu.Lock()
@@ -704,35 +1166,23 @@ func runReal(sc *RScenario) (st *tstats, err error) {
 				continue
 			}
 			if running {
-				if !w.await(realGuard, func() bool { return cur.returned || w.paniced != "" }) {
-					inconclusive = fmt.Sprintf("Subscribe #%d has not returned although its stop action was issued", cur.n)
+				if !settle(cur, "awaited by the Subscribe step that follows") {
 					break
 				}
 			}
-			ctx, cancel := context.WithCancel(context.Background())
-			q := client.Query{
-				Addrs:               []string{lis.Addr().String()},
-				Target:              "dev",
-				Queries:             []client.Path{{"*"}},
-				Type:                client.Stream,
-				Timeout:             10 * time.Second,
-				NotificationHandler: w.handler,
-			}
-			switch {
-			case s.Query == "dead":
-				q.Addrs, q.Timeout = []string{dead}, 30*time.Millisecond
-				st.label("dead-address")
-			case s.Query != "":
-				q.Queries = realBadPaths[s.Query]
-				st.label("bad-path:" + s.Query)
-			}
+			q := w.mkRealQuery(s, lis.Addr().String(), dead, st)
+			after := time.Duration(s.Deadline) * time.Millisecond
+			ctx, cancel, release := mkCtx(s.Ctx, after)
+			st.label(ctxLabel(s.Ctx))
 			typ := gclient.Type
 			if s.Trap == "pre-dial" || s.Trap == "post-dial" {
 				typ = realTrapType
 			}
 			w.mu.Lock()
-			call := &rcall{n: len(w.calls), step: s, cancel: cancel, beginBase: w.nBegin, closedAt: w.nClose}
-			call.stopped = s.Cancelled || (closedAny && !sc.Plain)
+			call := &rcall{n: len(w.calls), step: s, cancel: cancel, release: release, ctx: ctx, beginBase: w.nBegin, closedAt: w.nClose}
+			call.selfEnding = ctxSelfEnding(s.Ctx) && !s.Cancelled
+			call.stopped = s.Cancelled || call.selfEnding || (closedAny && !sc.Plain)
+			call.ctxEnded = s.Cancelled
 			w.calls = append(w.calls, call)
 			w.cur = call
 			note := ""
@@ -745,6 +1195,25 @@ func runReal(sc *RScenario) (st *tstats, err error) {
 				cancel()
 				st.label("subscribe-with-cancelled-context")
 			}
+			if call.selfEnding {
+				st.label("ctx-with-deadline-that-passes")
+				// (label only: what the call was doing when the deadline passed)
+				stop := context.AfterFunc(ctx, func() {
+					w.mu.Lock()
+					ph := "deadline-passes-" + phaseLocked()
+					if w.cur != call {
+						ph = "deadline-passes-after-a-later-subscribe"
+					}
+					if call.ctxEnded {
+						ph = "context-with-deadline-cancelled-before-it-passed"
+					}
+					call.ctxEnded = true
+					w.trace = append(w.trace, rev{kind: "ctx-deadline", call: call.n, note: ph})
+					w.mu.Unlock()
+					w.wake()
+				})
+				defer stop()
+			}
 			if closedAny && !sc.Plain {
 				st.label("subscribe-on-closed-client")
 			}
@@ -752,69 +1221,107 @@ func runReal(sc *RScenario) (st *tstats, err error) {
 				st.label("subscribe-again")
 			}
 			subs.Add(1)
-			go func() {
-				defer subs.Done()
-				defer w.recoverPanic("Subscribe")
-				err := w.c.Subscribe(ctx, q, typ)
-				w.mu.Lock()
-				call.returned = true
-				w.trace = append(w.trace, rev{kind: "ret", call: call.n, note: fmt.Sprint(err)})
-				w.mu.Unlock()
-				w.wake()
-			}()
+			go w.runSubscribe(call, ctx, q, typ, &subs)
 		case "cancel":
-			ph := phase()
 			w.mu.Lock()
 			cur = w.cur
-			if cur != nil {
-				cur.stopped = true
-				w.trace = append(w.trace, rev{kind: "cancel", call: cur.n})
-			}
 			w.mu.Unlock()
 			if cur == nil {
 				st.label("cancel-step-skipped-no-subscribe-yet")
 				continue
 			}
+			issued := func() {}
+			if s.Burst {
+				issued = openBurst()
+			}
+			ph := phase()
+			w.mu.Lock()
+			cur.stopped, cur.ctxEnded = true, true
+			w.trace = append(w.trace, rev{kind: "cancel", call: cur.n})
+			w.mu.Unlock()
 			st.label("cancel-" + ph)
+			if cur.selfEnding {
+				st.label("cancel-of-context-with-deadline")
+			}
 			cur.cancel()
+			issued()
 		case "close":
+			issued := func() {}
+			if s.Burst {
+				issued = openBurst()
+			}
 			st.label("close-" + phase())
 			if closedAny {
 				st.label("close-again")
 			}
 			closedAny = true
 			w.closeAsync()
+			issued()
+		}
+		if inconclusive != "" || hang != nil {
+			break
 		}
 	}
 
+	// Every Subscribe call whose context has ended (or ends by its deadline) is
+	// due WITHOUT any Close: the clause "Subscribe returns once its context has
+	// ended". The closing Close would hide a context that is ignored.
+	if inconclusive == "" && hang == nil && !sc.NoEndWait {
+		w.mu.Lock()
+		calls := append([]*rcall(nil), w.calls...)
+		p := w.paniced
+		w.mu.Unlock()
+		for _, c := range calls {
+			w.mu.Lock()
+			due := !c.returned && (c.ctxEnded || c.selfEnding)
+			w.mu.Unlock()
+			if !due || p != "" {
+				continue
+			}
+			if !settle(c, "awaited before the closing Close") {
+				break
+			}
+			st.label("ctx-ended-call-awaited-without-close")
+		}
+	} else if sc.NoEndWait {
+		st.label("closing-close-races-with-ended-contexts")
+	}
+
 	// The closing Close, then everything must come back.
-	if inconclusive == "" {
+	if inconclusive == "" && hang == nil {
 		ret := w.closeAsync()
 		closedAny = true
-		g := time.NewTimer(realGuard)
-		select {
-		case <-ret:
-		case <-g.C:
-			inconclusive = "the closing Close call has not returned"
+		returned := func() bool {
+			select {
+			case <-ret:
+				return true
+			default:
+				return false
+			}
 		}
-		g.Stop()
+		if ok, stuck := w.awaitStopped(returned, nil); !ok {
+			if stuck != "" {
+				hang = newVerr("close-blocks", "the closing Close call has not returned and nothing is left that could make it return: %s", stuck)
+			} else {
+				inconclusive = "the closing Close call has not returned"
+			}
+		}
 	}
-	if inconclusive == "" && !sc.Plain {
+	if inconclusive == "" && hang == nil && !sc.Plain {
 		// Close alone must end every Subscribe call of a reconnecting client
-		all := make(chan struct{})
-		go func() { subs.Wait(); close(all) }()
-		g := time.NewTimer(realGuard)
-		select {
-		case <-all:
-		case <-g.C:
-			inconclusive = "a Subscribe call of the reconnecting client has not returned after Close had"
+		w.mu.Lock()
+		calls := append([]*rcall(nil), w.calls...)
+		w.mu.Unlock()
+		for _, c := range calls {
+			if !settle(c, "the closing Close has returned") {
+				break
+			}
 		}
-		g.Stop()
 	}
 	w.mu.Lock()
 	for _, c := range w.calls {
 		if !c.returned {
-			c.stopped = true
+			c.stopped, c.ctxEnded = true, true
 			w.trace = append(w.trace, rev{kind: "cancel", call: c.n})
 		}
 	}
@@ -822,27 +1329,43 @@ func runReal(sc *RScenario) (st *tstats, err error) {
 	w.mu.Unlock()
 	for _, c := range calls {
 		c.cancel()
+		c.release()
 	}
-	if inconclusive == "" {
+	if inconclusive == "" && hang == nil {
+		for _, c := range calls {
+			if !settle(c, "the closing Close has returned and every context was cancelled") {
+				break
+			}
+		}
+	}
+	if inconclusive == "" && hang == nil {
 		all := make(chan struct{})
 		go func() { subs.Wait(); w.closes.Wait(); close(all) }()
 		g := time.NewTimer(realGuard)
 		select {
 		case <-all:
 		case <-g.C:
-			inconclusive = "a Subscribe or Close call has not returned after the closing Close and the cancellation of every context"
+			inconclusive = "a Close call has not returned after the closing Close and the cancellation of every context"
 		}
 		g.Stop()
 	}
 	w.mu.Lock()
 	trace := append([]rev(nil), w.trace...)
 	paniced := w.paniced
+	noLooks := w.noLooks
 	w.mu.Unlock()
 	if paniced != "" {
 		return st, newVerr("panic", "%s\ntrace: %s", paniced, renderTrace(trace))
 	}
+	if hang != nil {
+		hang.msg += "\ntrace: " + renderTrace(trace)
+		return st, hang
+	}
 	if inconclusive != "" {
 		st.guardSkip = true
+		if noLooks != "" {
+			inconclusive += " (no structural verdict: " + noLooks + ")"
+		}
 		return st, &errInconclusive{fmt.Sprintf("%s within %v of real time; trace: %s", inconclusive, realGuard, renderTrace(trace))}
 	}
 	ss.mu.Lock()
@@ -850,9 +1373,24 @@ func runReal(sc *RScenario) (st *tstats, err error) {
 		st.label("server-" + m)
 	}
 	ss.mu.Unlock()
+	w.mu.Lock()
+	if w.looks > 0 {
+		// a stopped call took longer than realFast to return (busy machine)
+		st.label("slow-return-looked-at")
+	}
+	if w.quietLooks > 0 {
+		// ... and a look found the process quiescent although the call did
+		// return afterwards: must never happen (see realquiet.go); recorded so
+		// that it would be seen long before three in a row could occur
+		st.label("NEAR-MISS:quiescent-look-before-a-return")
+	}
+	w.mu.Unlock()
 	if v := judgeReal(sc, trace, st); v != nil {
 		v.msg += "\ntrace: " + renderTrace(trace)
 		return st, v
+	}
+	if os.Getenv("C18_REAL_DEBUG") != "" {
+		fmt.Printf("DEBUG %s\n  labels %v\n  trace %s\n", mustJSON(sc), st.labelList(), renderTrace(trace))
 	}
 	return st, nil
 }
@@ -895,75 +1433,24 @@ func judgeReal(sc *RScenario, trace []rev, st *tstats) *verr {
 			}
 		}
 	}
-	// (3) callback discipline, per Subscribe call.
-	if reconnect && !sc.NilCallbacks {
-		const (
-			idle = iota
-			running
-			ended
-			disc
-			outside
-		)
-		state, attempt, first := outside, -1, true
+	// (3) callback discipline, per Subscribe call, for the callbacks that were
+	// given (callbacks.go).
+	if reconnect {
+		hasDisc, hasReset := callbacksGiven(sc.NilCallbacks, sc.Callbacks)
+		evs := make([]cbEv, 0, len(trace))
 		for _, e := range trace {
 			switch e.kind {
-			case "sub-call":
-				state, first = idle, true
-			case "sub-begin":
-				switch state {
-				case idle:
-				case disc:
-					return newVerr("reset-discipline", "attempt %d began without a reset call after the disconnect of attempt %d", e.n, attempt)
-				case ended:
-					return newVerr("disconnect-discipline", "attempt %d began without a disconnect call for ended attempt %d", e.n, attempt)
-				case outside:
-					return newVerr("attempt-outside-subscribe", "attempt %d began while no Subscribe call was running", e.n)
-				default:
-					return newVerr("harness-error", "attempt %d began while attempt %d was running", e.n, attempt)
-				}
-				state, attempt, first = running, e.n, false
-			case "sub-end":
-				state = ended
-			case "disconnect":
-				switch state {
-				case ended:
-					state = disc
-				case disc, idle:
-					return newVerr("disconnect-discipline", "disconnect called again for ended attempt %d (want once per ended attempt)", attempt)
-				case running:
-					return newVerr("disconnect-discipline", "disconnect called while attempt %d was still running", attempt)
-				case outside:
-					return newVerr("disconnect-discipline", "disconnect called while no Subscribe call was running")
-				}
-			case "reset":
-				switch state {
-				case disc:
-					state = idle
-				case idle:
-					if first {
-						return newVerr("reset-discipline", "reset called before the first attempt of a Subscribe call")
-					}
-					return newVerr("reset-discipline", "reset called twice before the retry after attempt %d", attempt)
-				case ended:
-					return newVerr("reset-discipline", "reset called before the disconnect call for ended attempt %d", attempt)
-				case running:
-					return newVerr("reset-discipline", "reset called while attempt %d was running (want before the retry)", attempt)
-				case outside:
-					return newVerr("reset-discipline", "reset called while no Subscribe call was running")
-				}
-			case "ret":
-				if state == ended {
-					return newVerr("disconnect-discipline", "Subscribe returned without a disconnect call for ended attempt %d", attempt)
-				}
-				if state == running {
-					return newVerr("harness-error", "Subscribe returned while attempt %d was running", attempt)
-				}
-				state = outside
+			case "sub-call", "ret", "sub-begin", "sub-end", "disconnect", "reset":
+				evs = append(evs, cbEv{kind: e.kind, attempt: e.n})
 			}
+		}
+		if v := judgeCallbacks(evs, hasDisc, hasReset, true); v != nil {
+			return v
 		}
 	}
 	// (4) per stream: Connected first, one connection's updates in the order sent.
-	in, lastConn := false, -1
+	// (a query with a ProtoHandler receives the raw responses: no Connected)
+	in, lastConn, proto := false, -1, false
 	var stream []rev
 	flush := func() *verr {
 		defer func() { stream = nil }()
@@ -971,11 +1458,17 @@ func judgeReal(sc *RScenario, trace []rev, st *tstats) *verr {
 			return nil
 		}
 		st.streams++
-		if stream[0].kind != "connected" {
-			return newVerr("connected-first", "a stream's first notification is %s, not Connected", renderRev(stream[0]))
+		rest := stream
+		if !proto {
+			if stream[0].kind != "connected" {
+				return newVerr("connected-first", "a stream's first notification is %s, not Connected", renderRev(stream[0]))
+			}
+			rest = stream[1:]
+		} else {
+			st.label("stream-through-proto-handler")
 		}
 		conn, next, synced := -1, 0, false
-		for _, e := range stream[1:] {
+		for _, e := range rest {
 			switch e.kind {
 			case "connected":
 				return newVerr("connected-first", "Connected delivered twice on one stream")
@@ -989,8 +1482,16 @@ func judgeReal(sc *RScenario, trace []rev, st *tstats) *verr {
 					}
 					lastConn = conn
 				}
-				if e.n != conn || e.k != next || synced {
-					return newVerr("order", "stream of connection %d: got %s where update %d was due (sync seen: %v)", conn, renderRev(e), next, synced)
+				// (the sync is sent after the first N updates and before the burst)
+				script := defaultRConn
+				if conn >= 0 && conn < len(sc.Conns) {
+					script = sc.Conns[conn]
+				}
+				if e.n != conn || e.k != next || (synced && e.k < script.N) || (!synced && script.Sync && e.k >= script.N) {
+					return newVerr("order", "stream of connection %d: got %s where update %d was due (sync seen: %v; the sync is sent after update %d)", conn, renderRev(e), next, synced, script.N-1)
+				}
+				if e.k >= script.N {
+					st.label("burst-update-delivered")
 				}
 				next++
 			default:
@@ -1005,7 +1506,7 @@ func judgeReal(sc *RScenario, trace []rev, st *tstats) *verr {
 	for _, e := range trace {
 		switch e.kind {
 		case "sub-begin":
-			in = true
+			in, proto = true, e.note == "proto"
 		case "sub-end":
 			in = false
 			if v := flush(); v != nil {
@@ -1034,6 +1535,8 @@ func realLabels(sc *RScenario, trace []rev, st *tstats) {
 		switch e.kind {
 		case "sub-call":
 			discs = 0
+		case "ctx-deadline":
+			st.label(e.note)
 		case "trap":
 			st.label("trap-fired:" + e.note)
 			if !strings.HasPrefix(e.note, "pre-dial") && !strings.HasSuffix(e.note, "/linger") {
@@ -1059,6 +1562,11 @@ func realLabels(sc *RScenario, trace []rev, st *tstats) {
 			}
 			if strings.Contains(e.note, "Dialer(") {
 				st.label("dial-failure")
+				if strings.Contains(e.note, "context canceled") || strings.Contains(e.note, "context deadline exceeded") {
+					st.label("dial-failure:context-ended")
+				} else {
+					st.label("dial-failure:other")
+				}
 			}
 		case "disconnect":
 			discs++
@@ -1087,8 +1595,21 @@ func realLabels(sc *RScenario, trace []rev, st *tstats) {
 	if nClose >= 2 {
 		st.label("close-calls>=2")
 	}
-	// Non-trivial: a Subscribe set-up failed AFTER a successful dial.
-	st.nontriv = failedAfterDial
+	// Non-trivial: a Subscribe set-up failed AFTER a successful dial, or a
+	// subscription whose server held the stream open (quiet or mid-burst) was
+	// ended through its context and awaited without any Close.
+	ctxEndedInStream := false
+	for l := range st.labels {
+		if strings.HasPrefix(l, "cancel-while-streaming-") || strings.HasPrefix(l, "deadline-passes-while-streaming") {
+			ctxEndedInStream = true
+		}
+	}
+	if ctxEndedInStream && st.labels["ctx-ended-call-awaited-without-close"] {
+		st.label("ctx-ended-in-held-stream-and-awaited")
+	} else {
+		ctxEndedInStream = false
+	}
+	st.nontriv = failedAfterDial || ctxEndedInStream
 	if st.nontriv {
 		st.label("nontrivial")
 	}
@@ -1102,7 +1623,7 @@ func renderRev(e rev) string {
 		return fmt.Sprintf("sub-begin#%d", e.n)
 	case "sub-end":
 		return fmt.Sprintf("sub-end#%d(%s)", e.n, cut(e.note, 90))
-	case "sub-call", "cancel":
+	case "sub-call", "cancel", "ctx-deadline":
 		return fmt.Sprintf("%s(#%d %s)", e.kind, e.call, e.note)
 	case "ret":
 		return fmt.Sprintf("ret(#%d %s)", e.call, cut(e.note, 90))
